@@ -152,7 +152,7 @@ Definition el_ok (t : mtype) (z : Z) : Prop :=
   | TI8 => in_s 8 z | TI16 => in_s 16 z | TI32 => in_s 32 z | TI64 => in_s 64 z
   | TU8 => in_u 8 z | TU16 => in_u 16 z | TU32 => in_u 32 z | TU64 | TP => in_u 64 z
   | TF | TD | TLD => True
-  | TBLK _ | TRBLK => False
+  | TBLK _ | TRBLK | TUNDEF => False
   end.
 
 Lemma r_els_roundtrip t els rest :
@@ -166,52 +166,59 @@ Proof.
 Qed.
 
 Lemma step_data F mods n items x t els rest :
-  Forall (el_ok t) els ->
+  is_undef t = false -> Forall (el_ok t) els ->
   r_step F (st_mod mods n items) (w_item (ItData x t els) ++ rest) = Next (st_mod mods n (ItData x t els :: items)) rest.
 Proof.
-  intros H.
+  intros Hu H.
   assert (E : r_step F (st_mod mods n items) (w_item (ItData x t els) ++ rest)
               = item_step (st_mod mods n items) [] rest
-                  (match r_els t (map (w_el t) els ++ SEOI :: rest) with
+                  (if is_undef t then None else
+                   match r_els t (map (w_el t) els ++ SEOI :: rest) with
                    | Some (els', r2) => Some (ItData x t els', r2) | None => None end)).
   { destruct x; cbn [w_item w_named app]; rewrite <- !app_assoc; reflexivity. }
-  rewrite E, r_els_roundtrip by assumption. reflexivity.
+  rewrite E, Hu, r_els_roundtrip by assumption. reflexivity.
 Qed.
 
 (* ---------------------------------------------------------------- proto / func headers *)
 
-Lemma r_types_roundtrip res rest : r_types (length res) (map SType res ++ rest) = Some (res, rest).
-Proof. induction res as [|t res IH]; [reflexivity|]. cbn [length r_types map app]. now rewrite IH. Qed.
+Definition types_ok (ts : list mtype) : Prop := Forall (fun t => is_undef t = false) ts.
+
+Lemma r_types_roundtrip res rest : types_ok res -> r_types (length res) (map SType res ++ rest) = Some (res, rest).
+Proof.
+  induction res as [|t res IH]; intros H; [reflexivity|]. inversion H as [|? ? Ht Hr]; subst.
+  cbn [length r_types map app]. now rewrite Ht, IH.
+Qed.
 
 Lemma r_args_roundtrip args rest fuel :
-  (length args < fuel)%nat ->
+  types_ok (map v_type args) -> (length args < fuel)%nat ->
   r_args fuel (flat_map w_arg args ++ SEOI :: rest) = Some (map norm_var args, rest).
 Proof.
-  revert fuel; induction args as [|v args IH]; intros fuel Hf.
+  revert fuel; induction args as [|v args IH]; intros fuel Ht Hf.
   - destruct fuel; [cbn in Hf; lia|]. reflexivity.
-  - destruct fuel; [cbn in Hf; lia|]. cbn [flat_map map]. rewrite <- app_assoc.
-    destruct v as [t n sz]. unfold w_arg, norm_var. cbn [v_type v_name v_size].
-    destruct (all_blk_type_p t) eqn:Eb; cbn [app r_args]; rewrite Eb, IH by (cbn in Hf; lia); reflexivity.
+  - destruct fuel; [cbn in Hf; lia|]. cbn [flat_map map] in *. rewrite <- app_assoc.
+    inversion Ht as [|? ? Hu Hr]; subst.
+    destruct v as [t n sz]. unfold w_arg, norm_var. cbn [v_type v_name v_size] in *.
+    destruct (all_blk_type_p t) eqn:Eb; cbn [app r_args]; rewrite Hu, Eb, IH by (try assumption; cbn in Hf; lia); reflexivity.
 Qed.
 
 Lemma b2z_roundtrip va : negb (b2z va =? 0) = va.
 Proof. destruct va; reflexivity. Qed.
 
 Lemma r_proto_tail_roundtrip va res args rest fuel :
-  (length args < fuel)%nat ->
+  types_ok res -> types_ok (map v_type args) -> (length args < fuel)%nat ->
   r_proto_tail fuel (w_proto_tail va res args ++ rest) = Some (va, res, map norm_var args, rest).
 Proof.
-  intros Hf. unfold w_proto_tail, r_proto_tail. cbn [app]. rewrite <- !app_assoc.
-  rewrite Nat2Z.id, r_types_roundtrip. cbn [app]. rewrite r_args_roundtrip by assumption.
+  intros Hr Ha Hf. unfold w_proto_tail, r_proto_tail. cbn [app]. rewrite <- !app_assoc.
+  rewrite Nat2Z.id, r_types_roundtrip by assumption. cbn [app]. rewrite r_args_roundtrip by assumption.
   now rewrite b2z_roundtrip.
 Qed.
 
 Lemma step_proto F mods n items x va res args rest :
-  (length args < F)%nat ->
+  types_ok res -> types_ok (map v_type args) -> (length args < F)%nat ->
   r_step F (st_mod mods n items) (w_item (ItProto x va res args) ++ rest)
   = Next (st_mod mods n (ItProto x va res (map norm_var args) :: items)) rest.
 Proof.
-  intros H.
+  intros Hr Ha H.
   assert (E : r_step F (st_mod mods n items) (w_item (ItProto x va res args) ++ rest)
               = item_step (st_mod mods n items) [] rest
                   (match r_proto_tail F (w_proto_tail va res args ++ rest) with
@@ -307,24 +314,26 @@ Proof.
 Qed.
 
 Lemma r_locals_roundtrip vs rest fuel :
-  (length vs < fuel)%nat ->
+  types_ok (map fst vs) -> (length vs < fuel)%nat ->
   r_locals fuel (flat_map (fun v : mtype * name => [SType (fst v); SName (snd v)]) vs ++ SEOI :: rest) = Some (vs, rest).
 Proof.
-  revert fuel; induction vs as [|[t x] vs IH]; intros fuel Hf.
+  revert fuel; induction vs as [|[t x] vs IH]; intros fuel Ht Hf.
   - destruct fuel; [cbn in Hf; lia|]. reflexivity.
-  - destruct fuel; [cbn in Hf; lia|]. cbn [flat_map app fst snd r_locals].
-    rewrite IH by (cbn in Hf; lia). reflexivity.
+  - destruct fuel; [cbn in Hf; lia|]. cbn [map fst] in Ht. inversion Ht as [|? ? Hu Hr]; subst.
+    cbn [flat_map app fst snd r_locals].
+    rewrite Hu, IH by (try assumption; cbn in Hf; lia). reflexivity.
 Qed.
 
 Lemma r_globals_roundtrip vs rest fuel :
-  (length vs < fuel)%nat ->
+  types_ok (map (fun v : mtype * name * name => fst (fst v)) vs) -> (length vs < fuel)%nat ->
   r_globals fuel (flat_map (fun v : mtype * name * name => [SType (fst (fst v)); SName (snd (fst v)); SName (snd v)]) vs
                   ++ SEOI :: rest) = Some (vs, rest).
 Proof.
-  revert fuel; induction vs as [|[[t x] h] vs IH]; intros fuel Hf.
+  revert fuel; induction vs as [|[[t x] h] vs IH]; intros fuel Ht Hf.
   - destruct fuel; [cbn in Hf; lia|]. reflexivity.
-  - destruct fuel; [cbn in Hf; lia|]. cbn [flat_map app fst snd r_globals].
-    rewrite IH by (cbn in Hf; lia). reflexivity.
+  - destruct fuel; [cbn in Hf; lia|]. cbn [map fst] in Ht. inversion Ht as [|? ? Hu Hr]; subst.
+    cbn [flat_map app fst snd r_globals].
+    rewrite Hu, IH by (try assumption; cbn in Hf; lia). reflexivity.
 Qed.
 
 Definition fs_new (x : name) (va : bool) (res : list mtype) (args : list var)
@@ -332,11 +341,11 @@ Definition fs_new (x : name) (va : bool) (res : list mtype) (args : list var)
   mkFstate x va res args ls gs insns.
 
 Lemma step_func_header F mods n items f rest :
-  (length (f_args f) < F)%nat ->
+  types_ok (f_res f) -> types_ok (map v_type (f_args f)) -> (length (f_args f) < F)%nat ->
   r_step F (st_mod mods n items) ([kw "func"; SName (f_name f)] ++ w_proto_tail (f_vararg f) (f_res f) (f_args f) ++ rest)
   = Next (st_fun mods n items (fs_new (f_name f) (f_vararg f) (f_res f) (map norm_var (f_args f)) [] [] [])) rest.
 Proof.
-  intros H.
+  intros Hr Ha H.
   assert (E : r_step F (st_mod mods n items)
                 ([kw "func"; SName (f_name f)] ++ w_proto_tail (f_vararg f) (f_res f) (f_args f) ++ rest)
               = match r_proto_tail F (w_proto_tail (f_vararg f) (f_res f) (f_args f) ++ rest) with
@@ -348,11 +357,11 @@ Proof.
 Qed.
 
 Lemma step_locals F mods n items x va res args vs rest :
-  vs <> [] -> (length vs < F)%nat ->
+  types_ok (map fst vs) -> vs <> [] -> (length vs < F)%nat ->
   r_step F (st_fun mods n items (fs_new x va res args [] [] [])) (w_locals vs ++ rest)
   = Next (st_fun mods n items (fs_new x va res args (rev vs) [] [])) rest.
 Proof.
-  intros Hne HF. destruct vs as [|v vs]; [congruence|].
+  intros Ht Hne HF. destruct vs as [|v vs]; [congruence|].
   unfold w_locals. cbn [app].
   assert (E : forall tl, r_step F (st_fun mods n items (fs_new x va res args [] [] [])) (kw "local" :: tl)
               = match r_locals F tl with
@@ -365,11 +374,11 @@ Proof.
 Qed.
 
 Lemma step_globals F mods n items x va res args ls vs rest :
-  vs <> [] -> (length vs < F)%nat ->
+  types_ok (map (fun v : mtype * name * name => fst (fst v)) vs) -> vs <> [] -> (length vs < F)%nat ->
   r_step F (st_fun mods n items (fs_new x va res args ls [] [])) (w_globals vs ++ rest)
   = Next (st_fun mods n items (fs_new x va res args ls (rev vs) [])) rest.
 Proof.
-  intros Hne HF. destruct vs as [|v vs]; [congruence|].
+  intros Ht Hne HF. destruct vs as [|v vs]; [congruence|].
   unfold w_globals. cbn [app].
   assert (E : forall tl, r_step F (st_fun mods n items (fs_new x va res args ls [] [])) (kw "global" :: tl)
               = match r_globals F tl with
@@ -413,7 +422,9 @@ Lemma body_reaches mods n items insns fs rest :
 Proof. intros H fuel Hf. exact (body_loop mods n items insns [] fs fuel rest H Hf). Qed.
 
 Definition wf_func_body (items : list item) (f : func) : Prop :=
-  Forall (wf_insn (decl_of items (f_name f))) (f_insns f).
+  Forall (wf_insn (decl_of items (f_name f))) (f_insns f)
+  /\ types_ok (f_res f) /\ types_ok (map v_type (f_args f)) /\ types_ok (map fst (f_locals f))
+  /\ types_ok (map (fun v : mtype * name * name => fst (fst v)) (f_globals f)).
 
 Lemma w_op_length o : (1 <= length (w_op o))%nat.
 Proof. destruct o; cbn; lia. Qed.
@@ -425,12 +436,12 @@ Lemma func_reaches mods n items f rest :
   wf_func_body items f ->
   reaches (st_mod mods n items) (w_func f ++ rest) (st_mod mods n (ItFunc (norm_func f) :: items)) rest.
 Proof.
-  intros Hwf. unfold w_func. rewrite <- !app_assoc.
+  intros (Hwf & Hres & Hargs & Hloc & Hglob). unfold w_func. rewrite <- !app_assoc.
   (* header *)
   eapply reaches_trans.
   { apply (reaches_step _ ([kw "func"; SName (f_name f)] ++ w_proto_tail (f_vararg f) (f_res f) (f_args f))).
     - cbn. lia.
-    - intros F HF. rewrite <- app_assoc. apply step_func_header.
+    - intros F HF. rewrite <- app_assoc. apply step_func_header; [assumption | assumption |].
       rewrite !app_length in HF. unfold w_proto_tail in HF. rewrite !app_length in HF.
       pose proof (length_flat_map_ge w_arg (f_args f) ltac:(intros v; unfold w_arg; cbn; lia)). cbn [length] in HF. lia. }
   (* locals *)
@@ -440,7 +451,7 @@ Proof.
     - cbn [w_locals app rev]. apply reaches_refl.
     - apply reaches_step.
       + cbn. lia.
-      + intros F HF. apply step_locals; [congruence|].
+      + intros F HF. apply step_locals; [first [assumption | rewrite <- El; assumption] | congruence|].
         rewrite app_length in HF. unfold w_locals in HF. cbn [length] in HF. rewrite app_length in HF.
         pose proof (length_flat_map_ge (fun v0 : mtype * name => [SType (fst v0); SName (snd v0)]) (v :: vs) ltac:(intros; cbn; lia)).
         lia. }
@@ -452,7 +463,7 @@ Proof.
     - cbn [w_globals app rev]. apply reaches_refl.
     - apply reaches_step.
       + cbn. lia.
-      + intros F HF. apply step_globals; [congruence|].
+      + intros F HF. apply step_globals; [first [assumption | rewrite <- Eg; assumption] | congruence|].
         rewrite app_length in HF. unfold w_globals in HF. cbn [length] in HF. rewrite app_length in HF.
         pose proof (length_flat_map_ge (fun v0 : mtype * name * name => [SType (fst (fst v0)); SName (snd (fst v0)); SName (snd v0)])
                       (v :: vs) ltac:(intros; cbn; lia)).
@@ -474,7 +485,8 @@ Definition wf_item (acc : list item) (it : item) : Prop :=
   | ItRef _ r _ => declared (st_mod [] [] acc) r = true
   | ItExpr _ f => declared_func (st_mod [] [] acc) f = true
   | ItLref _ l l2 _ => 0 <= l /\ match l2 with Some v => 0 <= v | None => True end
-  | ItData _ t els => Forall (el_ok t) els
+  | ItData _ t els => is_undef t = false /\ Forall (el_ok t) els
+  | ItProto _ _ res args => types_ok res /\ types_ok (map v_type args)
   | ItFunc f => wf_func_body acc f
   | _ => True
   end.
@@ -503,11 +515,11 @@ Proof.
   - apply step_export.
   - apply step_forward.
   - apply step_bss.
-  - apply step_data. exact Hwf.
+  - destruct Hwf. now apply step_data.
   - apply step_ref. exact Hwf.
   - destruct Hwf. now apply step_lref.
   - apply step_expr. exact Hwf.
-  - apply step_proto. rewrite app_length in HF. cbn [w_item] in HF. unfold w_proto_tail in HF.
+  - destruct Hwf. apply step_proto; [assumption | assumption |]. rewrite app_length in HF. cbn [w_item] in HF. unfold w_proto_tail in HF.
     rewrite !app_length in HF.
     pose proof (length_flat_map_ge w_arg args ltac:(intros v; unfold w_arg; cbn; lia)). cbn [length] in HF. lia.
 Qed.
